@@ -41,7 +41,15 @@ def build(ctx: Ctx, n_des: int):
             used.append(inp)
         if inp and rng.random() < 0.3:  # inputs are checked as entered: padding, blanks only, upper case, inner blanks are part of the text
             inp = rng.choice([f" in{k}", f"in{k} ", f"\tin{k}\n", " " * (k + 1), f"IN{k}", f"in {k}", f"in{k}\u00a0"])
-        return {"t": "free", "disc": f"ft{k}", "expr": {"parts": [[rng.choice(["X", "MUSS"]), rng.choice(["X", "Muss"]), cond]]}, "input": inp, "vtype": "TEXT"}
+        parts = [[rng.choice(["X", "MUSS"]), rng.choice(["X", "Muss"]), cond]]
+        if rng.random() < 0.3:
+            # several modal marks on one element, the branches shaped differently (with / without format constraints): which branch decides must not
+            # depend on which branch's evaluators answer first
+            parts = [["MUSS", "Muss", f"[{rng.choice('123')}]" + (f"[{rng.choice(['950', '952'])}]" if rng.random() < 0.6 else "")],
+                     ["SOLL", "Soll", f"[{rng.choice('123')}]" + (f"[{rng.choice(['951', '953'])}]" if rng.random() < 0.6 else "")]]
+            if rng.random() < 0.4:
+                parts.append(["KANN", "Kann", None if rng.random() < 0.5 else f"[{rng.choice('123')}][{rng.choice(['950', '953'])}]"])
+        return {"t": "free", "disc": f"ft{k}", "expr": {"parts": parts}, "input": inp, "vtype": "TEXT"}
 
     segs, left = [], n_des
     while left > 0:
